@@ -15,7 +15,8 @@ RULE_TEXT = ("C06-R: per loop-body path of Interface::run - Incomplete: no repor
              "C06-V: the error travels from execute_command through execute by `?` with identity conversion only. "
              "C06-S: the only state carried across run's back-edge is (input, path); across process's back-edges the "
              "buffers and the two offsets. C06-O/C06-A (witness interfaces): in generated arms nothing fallible follows "
-             "the handler call and the handler's error is propagated by `?` unchanged.")
+             "the handler call and the handler's error is propagated by `?` unchanged."
+             " C06-C03V/C03N: the conversion rules and the argument-vector rule of C03 (no wrapping or truncating conversion, no discarded push).")
 
 PROCESS = "microscpi::interface::Interface::process"
 EXECUTE = runsum.EXECUTE
@@ -85,6 +86,12 @@ def run(ck):
     if not rule_R(ck, lib, "C06-R"):
         return
     rule_rest(ck, lib)
+    # an unconvertible parameter or a surplus parameter is a fault of the unit: the conversions fail instead of wrapping
+    # or truncating, and the argument vector refuses what does not fit (the rules of C03, necessary here as well)
+    import c03
+    with ck.under("C03-", "C06-C03"):
+        c03.rule_V(ck, lib)
+        c03.rule_N(ck, lib)
 
 
 def rule_R(ck, lib, RID):
